@@ -16,6 +16,7 @@ for d in "$dir"/MUT?.diff; do
   esac
   flags=""
   grep -qi "\-race" "$dir/$m.md" 2>/dev/null && flags="-race"
+  grep -q "go:build verif\|+build verif" "$demo" 2>/dev/null && flags="$flags -tags verif"
   echo "== $m (demo package $pk -> go/$pkg $flags)"
   /verif/tools/confirm_mutation.sh "$dir" "$m" "$pkg" $flags 2>&1 | tail -1 | cut -c1-300
   /verif/tools/try_mutation.sh "$d" "$prop" "$@" 2>&1 | cut -c1-330
